@@ -225,11 +225,6 @@ func (s *SpokFile) run(stream iostream.IOStream, runner shell.Runner, force bool
 		return nil, fmt.Errorf("Could not load spok cache file at %q: %s", cachePath, err)
 	}
 
-	// Whether or not we want to update the cache after running e.g.
-	// if there were no file dependencies to update or if the task
-	// did not succeed
-	updateCache := true
-
 	for _, taskToRun := range runOrder {
 		// Gather up all the files to be hashed into a single slice
 		var toHash []string
@@ -247,18 +242,13 @@ func (s *SpokFile) run(stream iostream.IOStream, runner shell.Runner, force bool
 
 		s.logger.Debug("Task %s depends on %d files", taskToRun.Name, len(toHash))
 
-		// If the task did not declare any file dependencies, let's not
-		// update the cache, this way it will always run
-		if len(toHash) == 0 {
-			updateCache = false
-		}
+		// If the task did not declare any file dependencies it is never
+		// recorded in the cache, this way it will always run
+		hasFiles := len(toHash) != 0
 
-		var hasher hash.Hasher
-		if force {
-			hasher = hash.AlwaysRun{}
-		} else {
-			hasher = hash.New()
-		}
+		// The real digest is needed even when forcing so that a successful forced
+		// run is recorded against the state of the files it actually ran on
+		hasher := hash.New()
 
 		hashStart := time.Now()
 		currentDigest, err := hasher.Hash(toHash)
@@ -281,35 +271,39 @@ func (s *SpokFile) run(stream iostream.IOStream, runner shell.Runner, force bool
 		skipped := false
 
 		switch {
-		case cachedDigest == "" || currentDigest != cachedDigest:
-			// The digest is either empty or out of date, in which case the action to be taken is the same
-			// update the cache digest and run the task
-			if updateCache {
-				cachedState.Set(taskToRun.Name, currentDigest)
-			}
+		case force || !hasFiles || cachedDigest == "" || currentDigest != cachedDigest:
+			// Forced, nothing to compare, never run before or out of date, in which case the action
+			// to be taken is the same: run the task
 			result, err = taskToRun.Run(runner, stream, s.Env())
 			if err != nil {
 				return nil, fmt.Errorf("Task %q encountered an error: %w", taskToRun.Name, err)
 			}
 
-		case currentDigest == cachedDigest:
+			// Only now that the task has succeeded on these files is its digest recorded,
+			// and saved straight away so that it does not depend on what any other task does.
+			// A task that failed keeps whatever it last succeeded on, unless it failed on
+			// those very files (a forced run) in which case it is no longer up to date with them
+			switch {
+			case hasFiles && result.Ok():
+				cachedState.Set(taskToRun.Name, currentDigest)
+			case hasFiles && cachedDigest == currentDigest:
+				cachedState.Set(taskToRun.Name, "")
+			}
+			if hasFiles && (result.Ok() || cachedDigest == currentDigest) {
+				s.logger.Debug("Updating cached state for task %s", taskToRun.Name)
+				if err := cachedState.Dump(cachePath); err != nil {
+					return nil, err
+				}
+			}
+
+		default:
 			// This task has been run before and its digest has not changed, therefore
 			// we don't need to run it again
 			skipped = true
-			updateCache = false
 		}
 
 		// Gather up all the task results
 		results = append(results, task.Result{CommandResults: result, Task: taskToRun.Name, Skipped: skipped})
-	}
-
-	// Only update the cache if force was not set, the task declares file dependencies
-	// and the task run was successful
-	if !force && updateCache && results.Ok() {
-		s.logger.Debug("Updating cached state")
-		if err := cachedState.Dump(cachePath); err != nil {
-			return nil, err
-		}
 	}
 
 	return results, nil
